@@ -53,7 +53,9 @@ const (
 
 var secrets = []string{mark, fmt.Sprint(ruleRate), fmt.Sprint(defaultRate), fmt.Sprint(allRuleRate)}
 
-var tokens = []string{"", "t", "Tok"}
+// " " and "Tok " : tokens that only differ from nothing / from "Tok" by white space. HTTP strips optional white space
+// around a field value, so no request can carry them exactly: every request must be refused.
+var tokens = []string{"", "t", "Tok", " ", "Tok "}
 
 // longTokens: configured tokens of the lengths in real use (hex-16, 31/32/33 around a common fixed-width boundary,
 // UUID-36, hex SHA-256 64, and a 200-character one); part 2 below derives every near miss from each.
@@ -122,7 +124,7 @@ func variants(token string) []hv {
 		b = "Tok"
 	}
 	l := func(v string) string { return header + ": " + v }
-	return []hv{
+	return owsStripped([]hv{
 		{"absent", nil, nil},
 		{"empty", []string{header + ":"}, []string{""}},
 		{"prefix", []string{l(b[:len(b)-1])}, []string{b[:len(b)-1]}},
@@ -141,7 +143,17 @@ func variants(token string) []hv {
 		{"lower-case-header-name", []string{strings.ToLower(header) + ": " + b}, []string{b}},
 		{"exact-but-in-api-key-header", []string{"X-Honeycomb-Team: " + b}, nil},
 		{"exact-but-in-authorization", []string{"Authorization: Bearer " + b}, nil},
+	})
+}
+
+// owsStripped: what HTTP delivers as the field value (optional white space around it is not part of it).
+func owsStripped(vs []hv) []hv {
+	for i := range vs {
+		for j := range vs[i].Vals {
+			vs[i].Vals[j] = strings.Trim(vs[i].Vals[j], " \t")
+		}
 	}
+	return vs
 }
 
 // rt is one route variant.
@@ -382,7 +394,8 @@ func main() {
 				return
 			}
 			// the configured token itself must not be echoed (checkable when the presented values do not contain it)
-			if len(token) >= 3 && !strings.Contains(strings.Join(h.Lines, "\n"), token) && strings.Contains(body, token) {
+			// (a refusal may echo what was PRESENTED; for a token with white space around it the trimmed form is what is compared)
+			if tt := strings.TrimSpace(token); len(tt) >= 3 && !strings.Contains(strings.Join(h.Lines, "\n"), tt) && strings.Contains(body, tt) {
 				fail("token-leak-in-refusal:"+rtv.Kind, "refusal contains the configured token")
 				return
 			}
